@@ -5,6 +5,11 @@ ROOT = os.path.dirname(os.path.dirname(os.path.abspath(__file__)))
 ALL = ["C%02d" % i for i in range(1, 21)]
 
 CHECKS = {
+ "C19": dict(
+   technique="TLA+ SourceLayout spec: trivia as character-class sequences, the scanner position calculus and Shift; TLC-enumerated character sequences replayed into the real Position.Advance; every (program, token gap, trivia) variant compiled by the real front end and each diagnostic's recorded position validated by TLC against Shift of its original position",
+   category="exploration",
+   text="Corpus of 63 shipped and multi-error programs (accepted and rejected) x every token gap x 9 trivia kinds (quick: one variant per syntactic context, ~2600; thorough: 40000): same verdict, same diagnostics as a multiset, every diagnostic moved exactly with the inserted text (TLC-validated), and for accepted programs a sample is rebuilt and must print the same; all 1093 character-class sequences up to length 6 for the scanner.",
+   note="Messages are compared with digits masked; a diagnostic exactly at the insertion point may stay or move; trivia is inserted immediately before a token."),
  "C03": dict(
    technique="TLA+ TypeRules spec: rule-local typing judgments for 14 rule classes enumerated over parameter spaces x 10 syntactic sites; every case rendered and compiled by the real front end, the well-typed members of each (rule, site) family being the controls",
    category="exploration",
